@@ -60,13 +60,67 @@ def constants():
     ]
 
 
+STATUS = {"Ok": 200, "Conflict": 409, "NotFound": 404, "Gone": 410, "BadRequest": 400, "Forbidden": 403,
+          "InternalServerError": 500, "PayloadTooLarge": 413, "NoContent": 204, "Created": 201, "Accepted": 202,
+          "NotModified": 304, "ServiceUnavailable": 503, "Unauthorized": 401, "UnprocessableEntity": 422}
+
+
+def _arm_status(src, marker, nth=1):
+    """the status of the response built in the match arm / branch that starts at the nth occurrence of `marker` in the
+    non-test part of a handler source: HttpResponse::<Name>( or error::Error<Name>( .  Deliberately strict: the
+    arm's text runs to the next arm (a line starting with a capitalised pattern and containing `=>`), the next line
+    that starts with a closing brace, the next blank line or 600
+    characters, whichever comes first, and must name exactly ONE status; anything else counts as not located
+    (the tie for that entry then rests on the correspondence run alone)."""
+    cut = src.find("#[cfg(test)]")
+    body = src[:cut] if cut >= 0 else src
+    pos = -1
+    for _ in range(nth):
+        pos = body.find(marker, pos + 1)
+        if pos < 0:
+            return None
+    rest = body[pos + len(marker):pos + len(marker) + 600]
+    ends = [m.start() for m in [re.search(r"\n\s*[A-Z][^\n]*=>", rest), re.search(r"\n\s*\n", rest),
+                                re.search(r"\n\s*\}[,;)]*\s*\n", rest), re.search(r"\n\s*\} else", rest)] if m]
+    if ends:
+        rest = rest[:min(ends)]
+    names = set(re.findall(r"(?:HttpResponse::|error::Error)(\w+)\s*\(", rest))
+    if len(names) != 1:
+        return None
+    return STATUS.get(names.pop())
+
+
+def status_table():
+    """(name, what, value read from the source, model term of type Z, properties)"""
+    av, gcv = _read("server/src/api/add_version.rs"), _read("server/src/api/get_child_version.rs")
+    asn, gs, mod = _read("server/src/api/add_snapshot.rs"), _read("server/src/api/get_snapshot.rs"), _read("server/src/api/mod.rs")
+    st = lambda t: f"Z.of_N (rs_status ({t}))"
+    P14 = ("C14",)
+    return [
+        ("status_av_accepted", "add_version.rs arm AddVersionResult::Ok", _arm_status(av, "AddVersionResult::Ok("), st("encode (RAdded 1%N (Some UNone))"), P14),
+        ("status_av_conflict", "add_version.rs arm AddVersionResult::ExpectedParentVersion", _arm_status(av, "AddVersionResult::ExpectedParentVersion("), st("encode (RConflict 1%N)"), P14),
+        ("status_av_empty_body", "add_version.rs body.is_empty()", _arm_status(av, "body.is_empty()"), st("plain 400"), ("C15",)),
+        ("status_gcv_found", "get_child_version.rs arm GetVersionResult::Success", _arm_status(gcv, "GetVersionResult::Success"), st("encode (RFound (mkVersion 1%N 0%N nil))"), P14),
+        ("status_gcv_notfound", "get_child_version.rs arm GetVersionResult::NotFound", _arm_status(gcv, "GetVersionResult::NotFound)"), st("encode RNotFound"), P14 + ("C08",)),
+        ("status_gcv_gone", "get_child_version.rs arm GetVersionResult::Gone", _arm_status(gcv, "GetVersionResult::Gone)"), st("encode RGone"), P14 + ("C08",)),
+        ("status_gcv_noclient", "get_child_version.rs arm ServerError::NoSuchClient", _arm_status(gcv, "ServerError::NoSuchClient)"), st("encode RNoClient"), P14 + ("C08",)),
+        ("status_as_ack", "add_snapshot.rs after .add_snapshot(", _arm_status(asn, ".add_snapshot("), st("encode RSnapAck"), P14),
+        ("status_as_empty_body", "add_snapshot.rs body.is_empty()", _arm_status(asn, "body.is_empty()"), st("plain 400"), ("C15",)),
+        ("status_gs_found", "get_snapshot.rs Some((version_id, data))", _arm_status(gs, "if let Some(("), st("encode (RSnap 1%N nil)"), P14),
+        ("status_gs_none", "get_snapshot.rs else branch", _arm_status(gs, "} else {"), st("encode RNoSnap"), P14),
+        ("status_bad_client_id", "api/mod.rs client_id_header badrequest()", _arm_status(mod, "fn badrequest()"), "match client_id_header None CAbsent with inr s => Z.of_N s | inl _ => (-1)%Z end", ("C15", "C16")),
+        ("status_unlisted_client", "api/mod.rs client_id_header !allow_list.contains", _arm_status(mod, "!allow_list.contains"), "match client_id_header (Some nil) (COk 1%N) with inr s => Z.of_N s | inl _ => (-1)%Z end", ("C16",)),
+        ("status_noclient_error", "api/mod.rs server_error_to_actix NoSuchClient", _arm_status(mod, "ServerError::NoSuchClient =>"), st("encode RNoClient"), P14),
+    ]
+
+
 def check(prop):
     """-> {"located": [...], "not_located": [...], "theorems": [...], "failures": [...]} for the constants of `prop`"""
-    cs = [c for c in constants() if prop in c[4]]
+    cs = [c for c in constants() + status_table() if prop in c[4]]
     res = {"located": [], "not_located": [], "theorems": [], "failures": []}
     if not cs:
         return res
-    body = ["From TSS Require Import Urgency ServerProg Http Boot.", "Open Scope Z_scope.",
+    body = ["From TSS Require Import Base Seq Urgency ServerProg Http Boot proofs.HttpReach.", "Open Scope Z_scope.",
             f"(* generated by vlib/srctie.py from {REPO} *)"]
     for (name, what, val, term, _) in cs:
         if val is None:
@@ -83,7 +137,7 @@ def check(prop):
     key = hashlib.sha1((text + prop).encode()).hexdigest()[:12]
     f = os.path.join(d, f"SrcTie_{prop}_{key}.v")
     stamp = f[:-2] + ".ok"
-    newest_vo = max((os.path.getmtime(os.path.join(COQ, "theories", x)) for x in ("Boot.vo", "Http.vo", "ServerProg.vo", "Urgency.vo")
+    newest_vo = max((os.path.getmtime(os.path.join(COQ, "theories", x)) for x in ("Boot.vo", "Http.vo", "ServerProg.vo", "Urgency.vo", "proofs/HttpReach.vo")
                      if os.path.exists(os.path.join(COQ, "theories", x))), default=0)
     if os.path.exists(stamp) and os.path.getmtime(stamp) >= newest_vo:
         res["theorems"] = [f"src_tie_{n}" for (n, _, v, _, _) in cs if v is not None]
@@ -106,8 +160,9 @@ def check(prop):
         if rc1 == 0:
             res["theorems"].append(f"src_tie_{name}")
         else:
+            why = "which is a different number" if "Unable to unify" in (o1 + e1) else "and the equality does not check"
             res["failures"].append(f"src_tie_{name} no longer checks: the source says {name} = {val} ({what}); the model, and every theorem "
-                                   f"of this property's cone, is about `{term}` which is a different number: " + (o1 + e1).strip()[-300:].replace("\n", " "))
+                                   f"of this property's cone, is about `{term}` {why}: " + (o1 + e1).strip()[-300:].replace("\n", " "))
     if not res["failures"] and rc != 0:
         res["failures"].append("source tie file does not compile: " + (out + err)[-400:])
     return res
